@@ -152,34 +152,27 @@ func (s *Sim) directorStep() {
 			fam = 5 // a scripted plan needs everybody at the start line; a laggard spoils the arithmetic
 		}
 	}
-	if fam == 3 || fam == 4 {
-		var pd, name string
-		if fam == 3 {
-			pd, name = s.starvePlan(d, live), "starve"
-		} else {
-			pd, name = s.latePolkaPlan(d, live), "late-polka"
+	if fam != 2 && fam != 5 {
+		// a structured plan: the drawn family first, then the others (whichever the run's cast allows)
+		type famT struct {
+			name string
+			f    func(*director, []*kit.Node) string
 		}
-		if pd != "" {
-			d.scripted = true
-			d.deadline = s.now() + time.Duration(int(d.rounds+2)*6*s.cfg.TimeoutMs)*time.Millisecond
-			s.dir = d
-			s.res.Fault("director-height")
-			s.res.Fault("director-" + name + "-plan")
-			s.ah.Add("director", name)
-			s.trace("DIRECTOR h%d victim node %d:%s", d.height, d.victim, pd)
-			return
-		}
-	}
-	if fam <= 1 {
-		if pd := s.minorityLockPlan(d, live); pd != "" {
-			d.scripted = true
-			d.deadline = s.now() + time.Duration(int(d.rounds+2)*6*s.cfg.TimeoutMs)*time.Millisecond
-			s.dir = d
-			s.res.Fault("director-height")
-			s.res.Fault("director-minority-lock-plan")
-			s.ah.Add("director", "minority-lock")
-			s.trace("DIRECTOR h%d victim node %d:%s", d.height, d.victim, pd)
-			return
+		fams := []famT{{"minority-lock", s.minorityLockPlan}, {"starve", s.starvePlan}, {"late-polka", s.latePolkaPlan}}
+		start := map[int]int{0: 0, 1: 0, 3: 1, 4: 2}[fam]
+		for k := 0; k < len(fams); k++ {
+			ft := fams[(start+k)%len(fams)]
+			nd := &director{height: d.height, victim: d.victim, rounds: d.rounds, plans: map[uint32]*roundPlan{}, hold: map[uint32]map[int]bool{}}
+			if pd := ft.f(nd, live); pd != "" {
+				nd.scripted = true
+				nd.deadline = s.now() + time.Duration(int(nd.rounds+2)*6*s.cfg.TimeoutMs)*time.Millisecond
+				s.dir = nd
+				s.res.Fault("director-height")
+				s.res.Fault("director-" + ft.name + "-plan")
+				s.ah.Add("director", ft.name)
+				s.trace("DIRECTOR h%d victim node %d:%s", nd.height, nd.victim, pd)
+				return
+			}
 		}
 	}
 	for r := uint32(1); r <= d.rounds; r++ {
